@@ -7,8 +7,8 @@
    In addition the operations the case exercises are mapped to the model's event lists and checked
    structurally: no write to Program-owned memory, ownership respected, imported-string fields touched
    only through the scan-once protocol's locations.
-   xrt cases: an Object handed to another Runtime; the spec S is [to_value]; for the direct-argument path
-   the implementation model I accepts everything (open finding C16-N2). *)
+   xrt cases: an Object handed to another Runtime; the spec S is [to_value]; the direct path (this / arguments of
+   a Callable, Runtime.New) is additionally compared with its own model [call_arg_impl]. *)
 From Coq Require Import List Arith NArith Bool.
 Import ListNotations.
 From Verif.C16 Require Export Model.
@@ -45,7 +45,8 @@ Definition check_case (c : tcase) : bool :=
   match c with
   | CProg ops seq runs => forallb (N.eqb seq) runs && run_readonly ops
   | CVals acts seq runs => forallb (N.eqb seq) runs && acts_ok acts
-  | CXrt _ r g obs => N.eqb (tv_code (to_value r g)) obs
+  | CXrt direct r g obs =>
+      N.eqb (tv_code (to_value r g)) obs && (negb direct || N.eqb (tv_code (call_arg_impl r g)) obs)
   | CFail => false
   end.
 
